@@ -2,7 +2,7 @@
  * sink / queue source pair, under every interleaving with <= k preemptions.
  *
  * Thread 0 (producer): owns the real upipe_qsink; runs a script over
- *   f/F = set_flow_def(F1/F2), i = input(next buffer), x = flush, r = release
+ *   f/F = set_flow_def(F1/F2), i = input(next buffer), x = flush, a = attach_upump_mgr, r = release
  *   then its own mock event loop until nothing is alive.
  * Thread 1 (consumer): owns the real upipe_qsrc + a recording sink; runs its
  *   mock event loop; on 'source_end' it releases the queue source.
@@ -189,6 +189,9 @@ static void producer(void *arg)
             upipe_input(g_qsink, u, NULL);
             break;
         }
+        case 'a': /* (re-)attach the producer's event loop, legal at any time */
+            upipe_attach_upump_mgr(g_qsink);
+            break;
         case 'x':
             upipe_flush(g_qsink);
             g_flushed_upto = g_sent;
@@ -225,7 +228,7 @@ static void consumer(void *arg)
 
 static void cfg_str(char *b, size_t n)
 {
-    snprintf(b, n, "script=%s qlen=%d loop=%d maxlen=%d", g_script, g_qlen, g_loop, g_maxlen);
+    snprintf(b, n, "queue:script=%s:qlen=%d:loop=%d:maxlen=%d", g_script, g_qlen, g_loop, g_maxlen);
 }
 
 static int check(int outcome, char *sig, char *msg)
